@@ -62,6 +62,22 @@ def _alarm_handler(signum, frame):
     raise CaseTimeout()
 
 
+# Budgets and per-case timeouts are measured in CPU time of the worker (ITIMER_PROF / process_time), so
+# that a loaded machine (several checks at once) explores the same cases as an idle one; a generous
+# wall-clock limit (WALL_FACTOR x) stays as a safety net.
+WALL_FACTOR = 6
+
+
+def _arm(seconds):
+    signal.setitimer(signal.ITIMER_PROF, seconds)
+    signal.alarm(int(seconds * WALL_FACTOR) + 1)
+
+
+def _disarm():
+    signal.setitimer(signal.ITIMER_PROF, 0)
+    signal.alarm(0)
+
+
 def run_shard(prop, tier, seed, shard, nshards, budget_s, max_cases, only=None):
     """Returns the shard's result dict.  ``only`` = (cls, index) replays one case."""
     t0 = time.time()
@@ -73,6 +89,8 @@ def run_shard(prop, tier, seed, shard, nshards, budget_s, max_cases, only=None):
     classes = list(mod.classes(tier))
     per_case_timeout = getattr(mod, "CASE_TIMEOUT", {}).get(tier, 10 if tier == "quick" else 30)
     signal.signal(signal.SIGALRM, _alarm_handler)
+    signal.signal(signal.SIGPROF, _alarm_handler)
+    c0 = time.process_time()
 
     res = {
         "prop": prop,
@@ -102,14 +120,14 @@ def run_shard(prop, tier, seed, shard, nshards, budget_s, max_cases, only=None):
         mon.case = {"cls": cls, "index": index}
         mon.case_desc = None
         mon.reset_guard()
-        signal.alarm(per_case_timeout)
+        _arm(per_case_timeout)
         try:
             mod.run_case(ctx)
         except Exhausted:
-            signal.alarm(0)
+            _disarm()
             return "exhausted"
         except CaseTimeout:
-            signal.alarm(0)
+            _disarm()
             mon.reset_guard()
             if len(res["inconclusive_cases"]) < 30:
                 res["inconclusive_cases"].append(
@@ -118,7 +136,7 @@ def run_shard(prop, tier, seed, shard, nshards, budget_s, max_cases, only=None):
             res["classes"].setdefault(cls, [0, 0, 0])[2] += 1
             return "timeout"
         except Exception:
-            signal.alarm(0)
+            _disarm()
             mon.reset_guard()
             # A driver error is a harness problem or an unexpected library
             # exception that the case did not anticipate: never a pass.
@@ -134,7 +152,7 @@ def run_shard(prop, tier, seed, shard, nshards, budget_s, max_cases, only=None):
                 )
             return "error"
         finally:
-            signal.alarm(0)
+            _disarm()
             mon.case = None
         res["evaluations"] += 1
         c = res["classes"].setdefault(cls, [0, 0, 0])
@@ -160,7 +178,7 @@ def run_shard(prop, tier, seed, shard, nshards, budget_s, max_cases, only=None):
                 break
             stop = False
             for cls in live:
-                if time.time() - t0 > budget_s:
+                if time.process_time() - c0 > budget_s or time.time() - t0 > WALL_FACTOR * budget_s:
                     res["time_capped"] = True
                     stop = True
                     break
@@ -198,6 +216,7 @@ def run_shard(prop, tier, seed, shard, nshards, budget_s, max_cases, only=None):
     res["n_monitor_errors"] = mon.n_monitor_errors
     res["reach"] = reach.report()
     res["wall_s"] = round(time.time() - t0, 3)
+    res["cpu_s"] = round(time.process_time() - c0, 3)
     return res
 
 
